@@ -82,6 +82,12 @@ var sliceUniverse = []*sliceType{
 		}},
 	{spec: sliceSpec{"VI<[]int,int>/p1/sh1", []reflect.Type{tInts, tInt}, 1, 1},
 		mk: func() bigslice.Slice { return bigslice.Const(1, [][]int{{1}, {2}}, []int{1, 2}) }},
+	{spec: sliceSpec{"TI<traceCtx,int>/p1/sh2", []reflect.Type{tTrace, tInt}, 1, 2},
+		mk: func() bigslice.Slice { return bigslice.Const(2, []traceCtx{aTraceCtx, aTraceCtx}, []int{1, 2}) }},
+	{spec: sliceSpec{"CS<ctxStruct,string>/p1/sh1", []reflect.Type{tCtxStr, tString}, 1, 1},
+		mk: func() bigslice.Slice { return bigslice.Const(1, []ctxStruct{aCtxStruct}, []string{"a"}) }},
+	{spec: sliceSpec{"IT<int,traceCtx>/p1/sh2", []reflect.Type{tInt, tTrace}, 1, 2},
+		mk: func() bigslice.Slice { return bigslice.Const(2, []int{1, 2}, []traceCtx{aTraceCtx, aTraceCtx}) }},
 	{spec: sliceSpec{"Z<>/unit(scan)/sh2", nil, 1, 2},
 		mk: func() bigslice.Slice { return bigslice.Scan(bigslice.Const(2, []int{1, 2, 3}), scanFn) }},
 }
@@ -888,4 +894,4 @@ func main() {
 	})
 }
 
-var openRules = []string{oDegenerate, oAssignable, oVariadic, oCtxPos, oNilFunc, oKeyOps, oFoldPrefix, oNamedKind, oValueLevel}
+var openRules = []string{oDegenerate, oAssignable, oVariadic, oCtxPos, oCtxCol, oNilFunc, oKeyOps, oFoldPrefix, oNamedKind, oValueLevel}
